@@ -427,6 +427,8 @@ func OwnStr(v interface{}) string {
 		return ""
 	case stick.SafeValue:
 		return OwnStr(x.Value())
+	case fmt.Stringer:
+		return x.String()
 	}
 	rv := reflect.ValueOf(v)
 	switch rv.Kind() {
